@@ -173,6 +173,13 @@ def build_scratch(dest, harness_files=(), consts=None, tv=False):
     lib = lib.replace(anchor, inject + anchor, 1)
     open(libp, "w").write(lib)
 
+    if consts.get("CFG_vcoll_hideniche"):
+        # the niche-hiding slot array of the container model needs three `unsafe` blocks (MaybeUninit): the crate-wide
+        # forbid becomes a deny (ggrs and harness code stay unsafe-free: deny still rejects it there), vcoll opts out.
+        lib = open(libp).read()
+        if "#![forbid(unsafe_code)]" not in lib:
+            raise EncodingError("R1: anchor '#![forbid(unsafe_code)]' not found in src/lib.rs")
+        open(libp, "w").write(lib.replace("#![forbid(unsafe_code)]", "#![deny(unsafe_code)]", 1))
     # encoding switches (cfg names of the container model / harnesses), forced on by text substitution
     # because cargo-kani owns RUSTFLAGS: consts {"CFG_<name>": 1}
     for name in [n for n in consts if n.startswith("CFG_")]:
@@ -183,9 +190,9 @@ def build_scratch(dest, harness_files=(), consts=None, tv=False):
                 if f.endswith(".rs"):
                     pth = os.path.join(root, f)
                     t = open(pth).read()
-                    t2 = re.sub(r"cfg\(not\(%s\)\)" % cfgname, "cfg(any())", t)
-                    t2 = re.sub(r"cfg\(all\(kani, %s\)\)" % cfgname, "cfg(kani)", t2)
-                    t2 = re.sub(r"cfg\(%s\)" % cfgname, "cfg(all())", t2)
+                    # inside every cfg(...) attribute the switch name becomes the always-true predicate all()
+                    t2 = "\n".join(re.sub(r"\b%s\b" % cfgname, "all()", l) if re.search(r"cfg\(", l) else l
+                                    for l in t.split("\n"))
                     if t2 != t:
                         hits += 1
                         open(pth, "w").write(t2)
